@@ -92,7 +92,8 @@ RawText   == {"script", "style"}                       \* HTMLParser.CDATA_CONTE
 Void      == {"br", "hr", "img", "input", "meta", "link", "area", "base", "col", "embed",
               "param", "source", "track", "wbr"}       \* HTML void elements
 Plain     == {"div", "p", "span", "body",                \* ordinary containers of the universe
-              "b", "a", "h2", "ul", "li", "table", "tr", "td", "th"}   \* + the context frames of the harness
+              "b", "a", "h2", "ul", "li", "table", "tr", "td", "th",   \* + the context frames of the harness
+              "title"}                                 \* only meaningful inside a removed element (see RefTop)
 Barrier   == {"iframe", "object", "applet"}            \* raw text / scope barriers: tags inside reach nothing outside
 PClosers  == {"div", "p", "h2", "ul", "li", "table"}   \* start tags that close an open <p> in HTML5
 Names     == Removable \cup Void \cup Plain
@@ -129,6 +130,9 @@ AlphaQ5B == AlphaQ5 \cup {St("body")}                 \* theorem / sensitivity o
 AlphaQ6 == {Txt, Sc("script"), Sc("style"), Sc("noscript"), Sc("iframe"), Sc("object"), Sc("applet"),
             St("div"), En("noscript")}
 AlphaQ7 == {Txt, St("span"), En("span"), St("embed"), St("script"), En("script")}   \* inline sibling, then a removed element, then text
+AlphaQ8 == {Txt, St("object"), En("object"), St("title"), En("title"), Sc("title")}   \* specially handled elements inside a removed one
+AlphaT3 == {Txt, St("object"), En("object"), St("noscript"), En("noscript"), St("title"), En("title"),
+            St("td"), En("td"), St("a"), En("a"), St("h2"), En("h2"), St("li"), Sc("br"), St("img")}
 AlphaT  == {Txt, Amp, Com, Cds,
             St("noscript"), En("noscript"), St("object"), En("object"), St("iframe"), En("iframe"),
             St("script"), En("script"), St("div"), En("div"), St("p"), En("p"),
@@ -141,7 +145,9 @@ AlphaT2 == {Txt, Amp, St("applet"), En("applet"), St("style"), En("style"), St("
 AMB == 99            \* zone marker: after something ambiguous (zones: 0 = outside, k = inside region k)
 
 R0(xml) == [E |-> "", inner |-> <<>>, raw |-> "", outer |-> {}, amb |-> FALSE, reg |-> 0,
-            closed |-> {}, z |-> <<>>, xml |-> xml]    \* xml: XML dialect (EPUB chapter)
+            closed |-> {}, z |-> <<>>, xml |-> xml,    \* xml: XML dialect (EPUB chapter)
+            starts |-> <<>>,                           \* position of the start tag of region k
+            gone |-> {}]                               \* single tokens that are removed elements by themselves
 
 ZoneOf(r) == IF r.amb THEN AMB ELSE IF r.E = "" THEN 0 ELSE r.reg
 InIframe(r) == r.E = "iframe" \/ "iframe" \in Range(r.inner)
@@ -151,12 +157,18 @@ CloseRegion(r) == [r EXCEPT !.E = "", !.raw = "", !.inner = <<>>, !.closed = @ \
 \* effect of one token on the reference parse (r.amb = FALSE)
 RefTop(r, t) ==                                        \* outside every removable element
     IF t.k = "S" THEN
-        IF t.n \in RawText THEN [r EXCEPT !.E = t.n, !.raw = t.n, !.reg = @ + 1]
-        ELSE IF t.n \in Removable \ Void THEN [r EXCEPT !.E = t.n, !.inner = <<>>, !.reg = @ + 1]
+        IF t.n \in RawText THEN [r EXCEPT !.E = t.n, !.raw = t.n, !.reg = @ + 1, !.starts = Append(@, Len(r.z))]
+        ELSE IF t.n \in Removable \ Void THEN [r EXCEPT !.E = t.n, !.inner = <<>>, !.reg = @ + 1,
+                                                         !.starts = Append(@, Len(r.z))]
+        ELSE IF t.n = "title" THEN Ambiguous(r)        \* document title: not body text; which accessor holds it is open
         ELSE IF t.n \in Plain THEN [r EXCEPT !.outer = @ \cup {t.n}]
-        ELSE r                                         \* void element (embed included): opens nothing
+        ELSE IF t.n \in Removable THEN [r EXCEPT !.gone = @ \cup {Len(r.z)}]   \* <embed>: a removed element without content
+        ELSE r                                         \* other void elements: open nothing
     ELSE IF t.k = "X" THEN
-        IF t.n \in Removable \ Void THEN (IF r.xml THEN r ELSE Ambiguous(r))   \* <noscript/>: HTML opens, XML empty
+        IF t.n \in Removable \ Void THEN (IF r.xml THEN [r EXCEPT !.gone = @ \cup {Len(r.z)}] ELSE Ambiguous(r))
+                                                       \* <noscript/>: HTML opens, XML: an empty removed element
+        ELSE IF t.n = "title" THEN Ambiguous(r)
+        ELSE IF t.n \in Removable THEN [r EXCEPT !.gone = @ \cup {Len(r.z)}]   \* <embed/>
         ELSE IF t.n \in Plain THEN [r EXCEPT !.outer = @ \cup {t.n}]
         ELSE r
     ELSE IF t.k = "E" /\ t.n = "body" THEN Ambiguous(r) \* after the end of the body
@@ -175,7 +187,7 @@ RefIn(r, t) ==                                         \* inside a removable, no
         ELSE IF t.n \in PClosers /\ "p" \in r.outer /\ r.E \notin Barrier THEN Ambiguous(r)
         ELSE [r EXCEPT !.inner = Append(@, t.n)]
     ELSE IF t.k = "X" THEN
-        IF t.n \in Void \/ (r.xml /\ t.n \in Removable) THEN r ELSE Ambiguous(r)
+        IF t.n \in Void \/ r.xml THEN r ELSE Ambiguous(r)   \* XML: any <x/> is a complete empty element
     ELSE IF t.k = "E" THEN
         IF r.inner # <<>> THEN
             IF t.n = Last(r.inner) THEN [r EXCEPT !.inner = Front(@)] ELSE Ambiguous(r)
@@ -208,6 +220,22 @@ Class(toks) == ClassX(toks, FALSE)                     \* HTML dialect
 
 Conforms(cls, seen) == \A i \in DOMAIN cls : (cls[i] = "MUST" => i \in seen)
                                               /\ (cls[i] = "MUSTNOT" => i \notin seen)
+\* two observation sets: body = words in the body-text accessors (main text, table cells), any = words in ANY
+\* text-bearing accessor (also title, heading and link lists).  Visible text must stay body text -- a word that
+\* moved into the title because of a removed element has been taken along; removed content must be nowhere.
+Conforms2(cls, body, any) == \A i \in DOMAIN cls : (cls[i] = "MUST" => i \in body)
+                                                    /\ (cls[i] = "MUSTNOT" => i \notin any)
+
+\* METAMORPHIC CLAUSE ("takes nothing else with it"): Del(toks, xml) = the tokens that make up the properly closed
+\* removed elements, the contentless removed elements (<embed>, XML: <script/> ...) and the comments.  When every
+\* word of the string is decided (no DC), extracting the string and extracting it with exactly these tokens
+\* deleted must give the same body text (compared by the harness modulo white space: event field `same`).
+DelX(toks, xml) == LET r == RefScan(toks, 1, R0(xml)) IN
+    { i \in 1..Len(toks) : \/ r.z[i] \in r.closed
+                            \/ (\E k \in r.closed : r.starts[k] = i)
+                            \/ i \in r.gone
+                            \/ (toks[i].k = "C" /\ r.z[i] = 0) }
+AllDecided(cls) == \A i \in DOMAIN cls : cls[i] # "DC"
 ConformsRaw(cls, seen) == \A i \in DOMAIN cls : cls[i] = "MUST" => i \in seen   \* documented raw-HTML output
 
 \* ORDER: removing an element must not rearrange the text around it.  seq = the positions of the words
